@@ -2,7 +2,8 @@
    Only statements, `exact <lemma>` and Print Assumptions live here. *)
 From Coq Require Import ZArith List Bool String Lia.
 From BNP Require Import Base.Prims Model.C04 Proofs.C04 Proofs.C04_raw Proofs.C04_bam Proofs.C04_lines Proofs.C04_sam
-  Proofs.C04_crlf Proofs.C04_samcrlf Proofs.C04_oneline Proofs.C04_repl Proofs.C04_samjoin Proofs.C04_session Gen.C04 Bridge.C04.
+  Proofs.C04_crlf Proofs.C04_samcrlf Proofs.C04_oneline Proofs.C04_repl Proofs.C04_replcrlf Proofs.C04_olprog Proofs.C04_samjoin Proofs.C04_session
+  Gen.C04 Bridge.C04.
 Import ListNotations.
 Open Scope Z_scope.
 
@@ -400,3 +401,115 @@ Proof.
   - repeat constructor; unfold TAB, LF, CR; simpl; try lia; try discriminate.
   - unfold exact_fmt. split; [left; reflexivity|lia].
 Qed.
+
+(* ================= round 6: the classes that were correspondence-only at byte level ================= *)
+
+(* FASTQ / two-line FASTA, EVERY accepted program (file bytes -> written bytes), LF and CRLF files of any size: selections,
+   replacement of any subset of the entry fields (name, sequence, quality), np.concatenate — which for these buffers parses
+   every operand and yields an eager table re-joined by from_data — and any nesting of these with intermediate writes.
+   The written bytes satisfy the byte-level Spec: pure selections are the original bytes; otherwise every row is rendered from
+   its columns, each with its original or its replaced text, in the order the program denotes ('+name' may become '+',
+   CRLF may become LF: not fields of the entry type). *)
+Theorem C04_oneline_program_end_to_end :
+  forall v f cr recs p out,
+    oneline f -> recs <> [] -> (cr = [] \/ cr = [CR]) -> Forall (ol_rec_wf f cr) recs ->
+    fields_ok (n_fields f) p = true ->
+    model_out_v v f (layout f recs) p = Some out -> spec_out_ok f recs p (Some out) = true.
+Proof. exact oneline_program_end_to_end. Qed.
+Print Assumptions C04_oneline_program_end_to_end.
+
+(* the invariant behind it: whatever program was run, the table's rows of field texts (lazy: replaced columns + texts read
+   off the record bytes; eager: the parsed rows) are exactly the entry fields of the rows the Spec's evaluation denotes *)
+Theorem C04_oneline_rows :
+  forall f e recs x0, oneline f -> Inv x0 ->
+    lazy_rows f x0 [] = map (fun g => efields f (g_cols g)) recs ->
+    Forall (okrow f e) (map (srow_of f) recs) ->
+    forall p st, fields_ok (n_fields f) p = true -> run f (SLazy x0 []) p = Some st ->
+      frows f st = map (fun r => efields f (s_cols r)) (fst (spec_eval f (map (srow_of f) recs) p))
+      /\ Forall (okrow f e) (fst (spec_eval f (map (srow_of f) recs) p)) /\ st_ok st
+      /\ (snd (spec_eval f (map (srow_of f) recs) p) = false -> modified st = true).
+Proof. exact ol_run. Qed.
+Print Assumptions C04_oneline_rows.
+
+(* SAM (11 mandatory fields + optional tags, repaired join) with LF **or CRLF** line ends: every accepted program,
+   replacements included.  On a CRLF source the 11th field and the tags are fetched without the CR; re-joined rows end in LF *)
+Theorem C04_sam_program_crlf_end_to_end :
+  forall v e recs p out,
+    v_samtab v = true -> recs <> [] -> (e = [LF] \/ e = [CR; LF]) -> Forall (sam_rec_wf2 e) recs ->
+    Forall (fun r => Forall (fun c : list Z => c <> []) (skipn 11 (g_cols r))) recs ->
+    fields_ok 11 p = true ->
+    model_out_v v FSam (layout FSam recs) p = Some out -> spec_out_ok FSam recs p (Some out) = true.
+Proof. exact sam_program_end_to_end2. Qed.
+Print Assumptions C04_sam_program_crlf_end_to_end.
+
+(* VCFBuffer2 (8 plain fields + FORMAT/genotype columns) with LF or CRLF line ends (CRLF: repaired extractor): every accepted
+   program, replacements included.  On a CRLF source the rest-of-line text carries the CR, re-joined rows end in CR LF *)
+Theorem C04_vcf2_program_crlf_end_to_end :
+  forall v k e recs p out,
+    (9 <= k)%nat -> recs <> [] -> (e = [LF] \/ (e = [CR; LF] /\ v_crlf v = true)) -> Forall (rec_wf2 k e) recs ->
+    fields_ok 8 p = true ->
+    model_out_v v (FVcf 9) (layout (FVcf 9) recs) p = Some out -> spec_out_ok (FVcf 9) recs p (Some out) = true.
+Proof. exact vcf2_program_end_to_end2. Qed.
+Print Assumptions C04_vcf2_program_crlf_end_to_end.
+
+(* the same with the hypotheses on the extractor explicit (usable with the per-file check hyp_ok) *)
+Theorem C04_rest_program_meets_spec :
+  forall v f m e recs x0 p out,
+    rest_fmt f m -> (f = FSam -> v_samtab v = true) -> (e = [LF] \/ e = [CR; LF]) ->
+    read v f (layout f recs) = Some (SLazy x0 []) -> Inv x0 -> view x0 = map (gview f) recs ->
+    Forall (rec_rest2 f e) recs -> fields_ok m p = true ->
+    model_out_v v f (layout f recs) p = Some out -> spec_out_ok f recs p (Some out) = true.
+Proof. exact rest_program_end_to_end2. Qed.
+Print Assumptions C04_rest_program_meets_spec.
+
+(* non-vacuity of the round-6 hypotheses: concrete CRLF records meet them; the programs are accepted (output is Some ...) and
+   the outputs are the expected bytes *)
+Definition w_fq2 := [ {| g_cols := [unhex "7231"; unhex "4143"; unhex "7231"; unhex "4923"]; g_eol := [13; 10] |};
+                      {| g_cols := [unhex "78"; unhex ""; unhex ""; unhex ""]; g_eol := [13; 10] |} ].
+Definition p_fq2 := PRepl 2 [unhex "2121"; unhex ""; unhex "3f"] (PIdx [0; 1; 0] (PCat [PIdx [1] PSrc; PRepl 0 [unhex "6e"; unhex ""] PSrc])).
+Example C04_nonvacuous_oneline :
+  Forall (ol_rec_wf FFastq [13]) w_fq2 /\ w_fq2 <> [] /\ fields_ok (n_fields FFastq) p_fq2 = true
+  /\ model_out_v repaired FFastq (layout FFastq w_fq2) p_fq2
+      = Some (unhex "40780a0a2b0a21210a" ++ unhex "406e0a41430a2b0a0a" ++ unhex "40780a0a2b0a3f0a")
+  /\ spec_out_ok FFastq w_fq2 p_fq2 (model_out_v repaired FFastq (layout FFastq w_fq2) p_fq2) = true.
+Proof.
+  split; [|split; [discriminate|split; [reflexivity|split; vm_compute; reflexivity]]].
+  repeat constructor; unfold TAB, LF, CR; simpl; try lia; try discriminate.
+Qed.
+
+Definition w_vcf2_crlf := [ {| g_cols := g_cols (hd {| g_cols := []; g_eol := [] |} w_vcf); g_eol := [13; 10] |};
+                            {| g_cols := unhex "6368723232" :: tl (g_cols (hd {| g_cols := []; g_eol := [] |} w_vcf)); g_eol := [13; 10] |} ].
+Definition p_rest := PRepl 2 [unhex "78"; unhex ""; unhex "7979"] (PIdx [1; 1; 0] PSrc).
+Example C04_nonvacuous_rest_crlf :
+  Forall (sam_rec_wf2 [13; 10]) w_sam_crlf /\ fields_ok 11 p_rest = true
+  /\ (exists o, model_out_v repaired FSam (layout FSam w_sam_crlf) p_rest = Some o /\ spec_out_ok FSam w_sam_crlf p_rest (Some o) = true)
+  /\ Forall (rec_wf2 10 [13; 10]) w_vcf2_crlf
+  /\ (exists o, model_out_v repaired (FVcf 9) (layout (FVcf 9) w_vcf2_crlf) p_rest = Some o
+                 /\ spec_out_ok (FVcf 9) w_vcf2_crlf p_rest (Some o) = true).
+Proof.
+  split; [|split; [reflexivity|split; [eexists; split; vm_compute; reflexivity|split; [|eexists; split; vm_compute; reflexivity]]]].
+  - repeat constructor; unfold TAB, LF, CR; simpl; try lia; try discriminate.
+  - repeat constructor; unfold TAB, LF, CR; simpl; try lia; try discriminate.
+Qed.
+
+(* a LAZY FASTQ table whose quality column was replaced cannot be written (get_column refuses a RaggedArray of qualities):
+   the Spec accepts a refusal only for BAM.  (After np.concatenate the table is eager and the same replacement is written.) *)
+Theorem C04_fastq_lazy_quality_refuted :
+  exists recs p, fields_ok (n_fields FFastq) p = true
+    /\ spec_out_ok FFastq recs p (model_out_v current FFastq (layout FFastq recs) p) = false.
+Proof. exists w_fq2, (PRepl 2 [unhex "4949"; unhex ""] PSrc). vm_compute. split; reflexivity. Qed.
+Print Assumptions C04_fastq_lazy_quality_refuted.
+
+(* SOURCE TIE for the one-line buffers (round 6): OneLineBuffer.join_fields / FastQBuffer.join_fields regenerated from the
+   source — every output line has the allocated length field_length + 1 + _line_offsets[i]; the model's re-joined FASTQ / FASTA
+   row IS the source's join (header character, '+' line inserted at position 2, line feeds) with the class constants of this
+   checkout (HEADER, n_lines_per_entry, _line_offsets), and the reader is run with the same constants *)
+Theorem C04_source_tie_oneline :
+  (forall hdr off fld, (off = 0 \/ off = 1) -> len (ol_line hdr off fld) = gen_ol_line_add (gen_ol_line_len0 (len fld)) off)
+  /\ (forall v flds, List.length flds = 3%nat -> join_row v FFastq flds = ol_join_src gen_fq_header gen_fq_line_offsets (fq_fields_src flds))
+  /\ (forall v flds, List.length flds = 2%nat -> join_row v FFasta flds = ol_join_src gen_fa_header gen_fa_line_offsets flds)
+  /\ (forall v data,
+        read v FFastq data = option_map (fun x => SLazy x []) (from_oneline gen_fq_n_lines gen_fq_line_offsets data)
+        /\ read v FFasta data = option_map (fun x => SLazy x []) (from_oneline gen_fa_n_lines gen_fa_line_offsets data)).
+Proof. exact (conj b_ol_line_len (conj b_fq_join (conj b_fa_join b_ol_read))). Qed.
+Print Assumptions C04_source_tie_oneline.
